@@ -520,13 +520,20 @@ def directiveData {ι : Type} (d : SchemaDef ι) (dd : DirectiveDef ι) : Direct
   { name := dd.name, description := nullableString dd.description, locations := dd.locs,
     args := dd.args.map (inputValueData0 d) }
 
+/-- `mutationType` / `subscriptionType` (after fix C13/04): a root type whose required features the
+    request does not have is treated as absent (`queryType` is returned as is). -/
+def visibleRoot {ι : Type} (d : SchemaDef ι) (F : List String) : Option String → Option String
+  | some n => if subsetOf (d.featuresOf n) F then some n else none
+  | none => none
+
 /-- **The model of the standard introspection query**: `__schema { queryType mutationType
     subscriptionType types directives }` for a request with feature set `F`, list order normalised
     where the Go side has none (the `types` list and `possibleTypes` of interfaces are sorted by
     name; all other lists keep the order of the definition's association lists). -/
 def introspect (S : Schema) (F : List String) : IntroData :=
   let d := S.defn
-  { queryType := d.query, mutationType := d.mutation, subscriptionType := d.subscription,
+  { queryType := d.query, mutationType := visibleRoot d F d.mutation,
+    subscriptionType := visibleRoot d F d.subscription,
     types := sortTypes (((S.namedTypes.filterMap d.lookup).filter (fun t => subsetOf t.feat.keys F)).map (typeData S F)),
     directives := d.directives.map (directiveData d) }
 
@@ -809,19 +816,29 @@ def mapInsert {α : Type} (key : α → String) (m : List α) (x : α) : List α
 def nilDirs : DirList Id := { id := none, items := [] }
 def nilFeat : Feat Id := { id := none, keys := [] }
 
-/-- `InputValueData.getInputValueDefinition`: description and type only — **no default**. -/
-def rebuildIV (types : List (String × Kind)) (a : InputValueD) : Except String (InputValueDef Id) :=
+/-- What `getInputValueDefinition` records of the `defaultValue` member. Before fix patch 06
+    (`keep = false`) nothing: `InputValueData` had no such member (finding F-10a). With patch 06
+    (`keep = true`) the literal text is decoded; it is turned into a value only once all types are
+    complete (`setDefaultValues`, RebuildKeep.lean) — until then the text is carried as
+    `Value.float text` ("a literal the model has not read yet"). -/
+def pendingDefault (keep : Bool) : DefaultD → Option Value
+  | .text s => if keep then some (.float s) else none
+  | _ => none
+
+/-- `InputValueData.getInputValueDefinition`. -/
+def rebuildIV (keep : Bool) (types : List (String × Kind)) (a : InputValueD) : Except String (InputValueDef Id) :=
   (getType types a.type).map fun t =>
     { name := a.name, description := a.description.getD "", self := alloc, type := typeAtOf t,
-      default := none, dirs := nilDirs }
+      default := pendingDefault keep a.defaultValue, dirs := nilDirs }
 
-def rebuildIV0 (types : List (String × Kind)) (a : InputValueD) : Except String (InputValueDef0 Id) :=
+def rebuildIV0 (keep : Bool) (types : List (String × Kind)) (a : InputValueD) : Except String (InputValueDef0 Id) :=
   (getType types a.type).map fun t =>
-    { name := a.name, description := a.description.getD "", self := alloc, type := typeAtOf t, default := none }
+    { name := a.name, description := a.description.getD "", self := alloc, type := typeAtOf t,
+      default := pendingDefault keep a.defaultValue }
 
 /-- `FieldData.getFieldDefinition`. -/
-def rebuildField (types : List (String × Kind)) (f : FieldD) : Except String (FieldDef Id) :=
-  match getType types f.type, mapExcept (rebuildIV types) f.args with
+def rebuildField (keep : Bool) (types : List (String × Kind)) (f : FieldD) : Except String (FieldDef Id) :=
+  match getType types f.type, mapExcept (rebuildIV keep types) f.args with
   | .ok t, .ok args =>
     .ok { name := f.name, description := f.description.getD "", self := alloc, type := typeAtOf t,
           argsId := alloc, args := args.foldl (mapInsert (·.name)) [],
@@ -845,7 +862,7 @@ def builtinType (n : String) : TypeDef Id :=
     valuesId := none, values := [], inputsId := none, inputs := [] }
 
 /-- The second loop of `GetSchemaDefinition` for one entry of `Types`. -/
-def rebuildType (types : List (String × Kind)) (t : TypeD) : Except String (TypeDef Id) :=
+def rebuildType (keep : Bool) (types : List (String × Kind)) (t : TypeD) : Except String (TypeDef Id) :=
   if isBuiltin t.name then .ok (builtinType t.name) else
   let base : TypeDef Id :=
     { (builtinType t.name) with description := t.description.getD "" }
@@ -853,7 +870,7 @@ def rebuildType (types : List (String × Kind)) (t : TypeD) : Except String (Typ
   | none => .error ("unsupported type kind in types list: " ++ t.kind)
   | some .scalar => .ok base
   | some .object =>
-    match mapExcept (rebuildField types) (t.fields.getD []),
+    match mapExcept (rebuildField keep types) (t.fields.getD []),
           mapExcept (namedOfKind types .interface "type is not an interface: ") (t.interfaces.getD []) with
     | .ok fs, .ok is =>
       .ok { base with kind := .object, fieldsId := alloc, fields := fs.foldl (mapInsert (·.name)) [],
@@ -861,7 +878,7 @@ def rebuildType (types : List (String × Kind)) (t : TypeD) : Except String (Typ
     | .error e, _ => .error e
     | _, .error e => .error e
   | some .interface =>
-    match mapExcept (rebuildField types) (t.fields.getD []) with
+    match mapExcept (rebuildField keep types) (t.fields.getD []) with
     | .ok fs => .ok { base with kind := .interface, fieldsId := alloc, fields := fs.foldl (mapInsert (·.name)) [] }
     | .error e => .error e
   | some .union =>
@@ -874,7 +891,7 @@ def rebuildType (types : List (String × Kind)) (t : TypeD) : Except String (Typ
         deprecation := v.deprecationReason.getD "", dirs := nilDirs }
     .ok { base with kind := .enum, valuesId := alloc, values := vs.foldl (mapInsert (·.name)) [] }
   | some .inputObject =>
-    match mapExcept (rebuildIV types) (t.inputFields.getD []) with
+    match mapExcept (rebuildIV keep types) (t.inputFields.getD []) with
     | .ok fs => .ok { base with kind := .inputObject, inputsId := alloc, inputs := fs.foldl (mapInsert (·.name)) [] }
     | .error e => .error e
 
@@ -884,11 +901,11 @@ def knownLocations : List String :=
    "ENUM_VALUE", "INPUT_OBJECT", "INPUT_FIELD_DEFINITION"]
 
 /-- `DirectiveData.getDirectiveDefinition`. -/
-def rebuildDirective (types : List (String × Kind)) (x : DirectiveD) : Except String (DirectiveDef Id) :=
+def rebuildDirective (keep : Bool) (types : List (String × Kind)) (x : DirectiveD) : Except String (DirectiveDef Id) :=
   match x.locations.find? (fun l => !knownLocations.contains l) with
   | some l => .error ("unsupported directive location: " ++ l)
   | none =>
-    match mapExcept (rebuildIV0 types) x.args with
+    match mapExcept (rebuildIV0 keep types) x.args with
     | .ok args =>
       .ok { name := x.name, description := x.description.getD "", self := alloc,
             locsId := if x.locations.isEmpty then none else alloc, locs := x.locations,
@@ -915,10 +932,10 @@ def optRoot (types : List (String × Kind)) (what : String) : Option String → 
   | none => .ok none
 
 /-- The rest of `GetSchemaDefinition` once the shells exist and the query root is named. -/
-def rebuildWith (types : List (String × Kind)) (x : IntroData) (q : String) : Except String GDef :=
+def rebuildWith (keep : Bool) (types : List (String × Kind)) (x : IntroData) (q : String) : Except String GDef :=
   match rootOf types "query" q, optRoot types "mutation" x.mutationType,
         optRoot types "subcription" x.subscriptionType,
-        mapExcept (rebuildType types) x.types, mapExcept (rebuildDirective types) x.directives with
+        mapExcept (rebuildType keep types) x.types, mapExcept (rebuildDirective keep types) x.directives with
   | .ok q, .ok m, .ok s, .ok ts, .ok ds =>
     let additional := (ts.filter (fun t => t.kind == .object && !t.ifaces.isEmpty)).map (·.name)
     .ok { types := ts, query := some q, mutation := m, subscription := s,
@@ -930,17 +947,20 @@ def rebuildWith (types : List (String × Kind)) (x : IntroData) (q : String) : E
   | _, _, _, .error e, _ => .error e
   | _, _, _, _, .error e => .error e
 
-/-- **`GetSchemaDefinition`**. The model declines duplicate type names in the `types` list (the Go
-    code then lets the later shell win and fills it twice; no introspection result of an accepted
-    schema has duplicates — `describe_types_once`). The result's table holds every listed type;
-    `AdditionalTypes` are the objects with at least one interface. -/
-def rebuild (x : IntroData) : Except String GDef :=
+/-- `GetSchemaDefinition` up to (not including) `setDefaultValues`. The model declines duplicate
+    type names in the `types` list (the Go code then lets the later shell win and fills it twice; no
+    introspection result of an accepted schema has duplicates — `describe_types_once`). The result's
+    table holds every listed type; `AdditionalTypes` are the objects with at least one interface. -/
+def rebuildRaw (keep : Bool) (x : IntroData) : Except String GDef :=
   if !nodupNames (x.types.map (·.name)) then .error "duplicate type name in the types list (outside the model)" else
   match mapExcept tableEntry x.types with
   | .error e => .error e
   | .ok types =>
     match x.queryType with
     | none => .error "type not found: "
-    | some q => rebuildWith types x q
+    | some q => rebuildWith keep types x q
+
+/-- **`GetSchemaDefinition` before fix patch 06**: defaults are not carried (F-10a). -/
+def rebuild (x : IntroData) : Except String GDef := rebuildRaw false x
 
 end ApiFu.C10
